@@ -215,6 +215,9 @@ def _judge(ctx, oa, b, cfg, tr, bi, site, fams):
             g = _panic_guard(oa, b, cfg, tr, bi)
             if g:
                 return 'table', ('stepping', 'begin_panic', g), ''
+        uv = _unreachable_by_value(ctx, b, bi)
+        if uv:
+            return 'discharged', 'explicit-panic-unreachable', uv
         return 'violation', 'explicit-panic', 'an explicit panic!/assert! is reachable and is not one of the tabled sites'
     if 'Option::<T>::expect' in n or 'Option::<T>::unwrap' in n:
         r = _expect_of_uniform_index(b, tr, t)
@@ -278,6 +281,27 @@ def _judge(ctx, oa, b, cfg, tr, bi, site, fams):
     if 'Builder::init' in n or 'logger::init' in n:
         return 'table', ('bin', 'logger-init', 'once'), ''
     return 'violation', 'panic-capable-call:' + n.rsplit('::', 2)[-1], 'call to %s can panic and is neither discharged nor tabled' % n
+
+
+def _unreachable_by_value(ctx, b, bi):
+    """An assert!/panic! whose condition is decided by the values of the function itself (`assert!(a.len() >= b.len())` over two
+    fixed-size tables): every path of the function is executed symbolically (callees by their definitions), symbolic conditions
+    fork both ways; the panic is unreachable when the exploration is complete and no path arrives at its block."""
+    from ..sym import SymEx
+    if b.is_closure:
+        return None
+    sx = SymEx(ctx.facts)
+    sx.stop_blocks = {bi}
+    try:
+        outs = sx.run(b, [SYM(b.local_name(i) or 'arg%d' % i) for i in b.args()])
+    except Exception:      # noqa: BLE001
+        return None
+    if sx.aborted or not outs:
+        return None
+    if any(isinstance(o.ret, tuple) and o.ret and o.ret[0] == 'stopped' for o in outs):
+        return None
+    return 'no path of %s reaches the panic (%d paths executed by value, conditions decided by the function\'s own constants)' \
+        % (b.fn_name, len(outs))
 
 
 def _divisor(ctx, oa, b, tr, bi, t, fams):
@@ -594,7 +618,8 @@ def _slice_from_enumerate_index(b, cfg, tr, t):
 
     def leaf(o):
         fp = field_path(o.get('p', []))
-        if o['o'] == 'call' and call_matches(o['term'], '::next') and fp[-1:] == ['0'] and 'Enumerate' in o['term']['args'][0].get('ty', ''):
+        if o['o'] == 'call' and call_matches(o['term'], '::next') and fp[-1:] == ['0'] and \
+                ('Enumerate' in o['term']['args'][0].get('ty', '') or _enumerate_loop(b, tr, o['bb'])):
             hdr['h'] = o['bb']
             return SYM('i')
         return None
@@ -639,8 +664,21 @@ def _from_enumerate(b, tr, op):
     fp = field_path(o.get('p', []))
     if o['o'] == 'call' and call_matches(o['term'], '::next') and fp[-1:] == ['0']:
         ity = o['term']['args'][0].get('ty', '')
-        return 'Enumerate' in ity
+        return 'Enumerate' in ity or _enumerate_loop(b, tr, o['bb'])
     return False
+
+
+def _enumerate_loop(b, tr, header):
+    """The loop whose next() call is in block `header` ranges over `<chain>.enumerate()` (fused loops carry no iterator type)."""
+    from ..loops import for_loops
+    key = (id(b), 'enum-loops')
+    if key not in _ENUM:
+        _ENUM.clear()
+        _ENUM[key] = {d['header'] for d in for_loops(b, CFG(b), tr) if d['chain_terms'] and d['chain_terms'][0][0] == 'enumerate'}
+    return header in _ENUM[key]
+
+
+_ENUM = {}
 
 
 def _bounded_counter(b, cfg, tr, x, after_bb):
@@ -824,7 +862,12 @@ def _nonempty_basis(ctx, im):
     cfg = CFG(im)
     rets = cfg.exits()
     t = Tracer(im)
+    shrinkers = tuple(x for x in RESIZERS if not x.endswith(('::push', '::append', '::insert')))
+    shrunk = any(call_matches(tt, *shrinkers) and 'StandardBasis' in (tt['args'][0].get('ty', '') if tt['args'] else '')
+                 for _bi, tt in im.calls())
     for bi, tt in im.calls():
+        if shrunk:
+            break
         if call_matches(tt, 'Vec::<T, A>::append') and all(cfg.dominates(bi, r) for r in rets) and cfg.loop_depth(bi) == 0:
             src, _ = through(t, tt['args'][1])
             if src['o'] == 'call':
@@ -841,7 +884,7 @@ def _nonempty_basis(ctx, im):
             return True, 'unconditional push'
     # value-based: the function is loop-free (iterator chain) and every path returns a sequence with a known first element
     from ..sym import SymEx, SYM
-    if not cfg.loops():
+    if not cfg.loops() and not shrunk:
         sx = SymEx(f)
         try:
             outs = sx.run(im, [SYM('self')])
@@ -855,6 +898,64 @@ def _nonempty_basis(ctx, im):
                     n_ok += 1
             if n_ok == len(outs):
                 return True, 'every path returns a sequence that starts with a known element'
+    # value-based with loops: the loops only grow Vecs (push / append / extend as receiver, no resizer, no re-assignment), so
+    # the sequence returned when every loop is skipped is a prefix-wise lower bound of the real one
+    from ..nest import Nest
+    try:
+        n = Nest(f, im, yields=False)
+    except Exception:      # noqa: BLE001
+        return False, 'no unconditional push/append found'
+    b2, t2 = n.b, n.tr
+    in_loops = set()
+    for d in n.loops:
+        in_loops |= set(d['loop']['body'])
+    grow_only = not any(call_matches(tt, *shrinkers) and 'StandardBasis' in (tt['args'][0].get('ty', '') if tt['args'] else '')
+                        for bi, tt in b2.calls() if bi in in_loops)
+    for bi in in_loops:
+        bb = b2.blocks[bi]
+        if bb.get('cleanup'):
+            continue
+        for st in bb['stmts']:
+            if st['s'] == 'assign' and not st['place']['p'] and b2.local_ty(st['place']['l']).startswith('std::vec::Vec<basis::StandardBasis') \
+                    and st['rv']['r'] != 'ref':
+                grow_only = False
+        tt = bb['term']
+        if tt['t'] == 'call':
+            nm = (callee_name(tt) or '').rsplit('::', 1)[-1]
+            for ai, a in enumerate(tt['args']):
+                if a.get('ty', '').startswith('&mut std::vec::Vec<basis::StandardBasis') and not (ai == 0 and nm in ('push', 'append', 'extend')):
+                    # the drained side of append(&mut dst, &mut src) must be a temporary of the loop body
+                    if not (ai == 1 and nm == 'append' and container_root(b2, t2, a) != container_root(b2, t2, tt['args'][0])):
+                        grow_only = False
+            if tt.get('dest') and not tt['dest']['p'] and tt['dest'].get('ty', '').startswith('std::vec::Vec<basis::StandardBasis'):
+                # a Vec produced inside a loop is fine unless it overwrites one that lives outside the loop
+                dl = tt['dest']['l']
+                if any(s2['s'] == 'assign' and s2['place']['l'] == dl for bj, bb2 in enumerate(b2.blocks) if bj not in in_loops
+                       for s2 in bb2['stmts']) or any(t3.get('dest', {}).get('l') == dl for bj, t3 in b2.calls() if bj not in in_loops):
+                    grow_only = False
+    if grow_only:
+        rets = [bi for bi, bb in enumerate(b2.blocks) if bb['term']['t'] == 'return' and not bb.get('cleanup')]
+        n_ok = n_all = 0
+        try:
+            for rb in rets:
+                sx, outs = n.reach(rb)
+                if sx.aborted:
+                    n_all += 1
+                    continue
+                for o in outs:
+                    n_all += 1
+                    st2 = o.st.fork()
+                    fid = min(st2.frames)
+                    for s3 in b2.blocks[rb]['stmts']:
+                        if s3['s'] == 'assign':
+                            sx.write_place(st2, fid, s3['place'], sx.rvalue(st2, fid, s3['rv']))
+                    r = sx.deep(st2, st2.frames[fid].get(0))
+                    if isinstance(r, tuple) and r[0] in ('seq', 'seqmin') and len(r[1]) >= 1:
+                        n_ok += 1
+        except Exception:      # noqa: BLE001
+            n_all += 1
+        if n_all and n_ok == n_all:
+            return True, 'with every (grow-only) loop skipped, every path already returns a sequence with a first element'
     return False, 'no unconditional push/append found'
 
 
